@@ -44,7 +44,7 @@ def work(ctx, tier):
         ctx.inc("sweep_scenarios")
     n = (9000 if tier == "quick" else 250000) // ctx.nshards
     for k in range(n):
-        sc = gen.rand_scenario(rng, p_special=0.08, specials=("abort", "nested_exh", "nested_open", "cancel", "kbd", "sysexit", "timeout", "timeout"), p_attempt_timeout=0.15, p_budget=0.3, p_handler=0.4, p_abort=0.15, ncalls=(1, 2), placements=(k % 5 == 0), p_exc_same=0.2, p_via_config=0.2)
+        sc = gen.rand_scenario(rng, p_special=0.08, specials=("abort", "nested_exh", "nested_open", "cancel", "kbd", "sysexit", "timeout", "timeout"), p_attempt_timeout=0.15, p_budget=0.3, p_handler=0.4, p_abort=0.15, ncalls=(1, 2), placements=(k % 5 == 0), p_exc_same=0.2, p_via_config=0.2, p_res_none=0.15)
         for e in common.pick_entries(rng, entries, 3):
             _one(ctx, sc, e, stats, sample=(k < 2 and ctx.shard == 0))
         ctx.inc("random_scenarios")
